@@ -61,7 +61,7 @@ fn main() {
             w.flush().unwrap();
             println!("{{\"programs\":{},\"events\":{}}}", n_prog, n_ev);
         }
-        "formats" | "mounts" => {
+        "formats" | "mounts" | "dirs" => {
             let inp = std::fs::File::open(&args[2]).expect("open requests");
             let out = std::fs::File::create(&args[3]).expect("create events");
             let mut w = BufWriter::with_capacity(1 << 20, out);
@@ -73,7 +73,11 @@ fn main() {
                     continue;
                 }
                 let req: serde_json::Value = serde_json::from_str(&line).expect("request json");
-                n_ev += if args[1] == "formats" { sweeps::formats(&req, &mut w) } else { sweeps::mounts(&req, &mut w) };
+                n_ev += match args[1].as_str() {
+                    "formats" => sweeps::formats(&req, &mut w),
+                    "mounts" => sweeps::mounts(&req, &mut w),
+                    _ => sweeps::dirs(&req, &mut w),
+                };
                 n_prog += 1;
             }
             w.flush().unwrap();
